@@ -234,6 +234,42 @@ pub fn run_check(id: &str, tier: &str, seed: u64, jobs: usize) -> i32 {
     }
 }
 
+/// Run one explicit case (replay-file JSON) in a fresh universe process and
+/// return the signatures of the violations it produces.
+pub fn replay_value(v: &serde_json::Value) -> (Vec<(String, String)>, Vec<String>) {
+    let case = match Case::from_json(v) {
+        Some(c) => c,
+        None => return (Vec::new(), vec!["not a case".into()]),
+    };
+    if case.check == "C04" {
+        let mk = |uni: UniCfg| Batch { check: "C04".into(), phase: "replay".into(), uni, seed: 0, lo: 0, hi: 1, fresh: false, tier: "quick".into(), extra: serde_json::json!({"case": v}) };
+        let rk = crate::coord::run_batches(vec![mk(UniCfg::k())], 1);
+        let re = crate::coord::run_batches(vec![mk(UniCfg::e())], 1);
+        let (res, _, _) = c04::compare(0, rk, re, Some(&case));
+        let sigs = res.stats.violations.iter().map(|x| (x["expect"]["signature"].as_str().unwrap_or("").to_string(), x["expect"]["detail"].as_str().unwrap_or("").to_string())).collect();
+        return (sigs, res.stats.harness_errors);
+    }
+    let b = Batch {
+        check: case.check.clone(),
+        phase: "replay".into(),
+        uni: case.uni.clone(),
+        seed: 0,
+        lo: 0,
+        hi: 1,
+        fresh: case.fresh,
+        tier: "quick".into(),
+        extra: serde_json::json!({"case": v}),
+    };
+    let res = crate::coord::run_batches(vec![b], 1);
+    let mut sigs: Vec<(String, String)> =
+        res.stats.violations.iter().map(|x| (x["expect"]["signature"].as_str().unwrap_or("").to_string(), x["expect"]["detail"].as_str().unwrap_or("").to_string())).collect();
+    for d in &res.died {
+        let opname = v["ops"][0].as_array().and_then(|a| a.last()).map(|o| o["op"][0].as_str().unwrap_or("").to_string()).unwrap_or_default();
+        sigs.push((format!("{}/universe-died/{opname}", case.check), format!("universe died: {}", d["how"])));
+    }
+    (sigs, res.stats.harness_errors)
+}
+
 /// Replay one explicit case from a replay file, in a fresh universe process.
 pub fn replay(path: &str) -> i32 {
     let s = match std::fs::read_to_string(path) {
@@ -250,68 +286,150 @@ pub fn replay(path: &str) -> i32 {
             return 2;
         }
     };
-    let case = match Case::from_json(&v) {
-        Some(c) => c,
-        None => {
-            eprintln!("not a case file");
-            return 2;
-        }
-    };
-    if case.check == "C04" {
-        let mk = |uni: UniCfg| Batch { check: "C04".into(), phase: "replay".into(), uni, seed: 0, lo: 0, hi: 1, fresh: false, tier: "quick".into(), extra: serde_json::json!({"case": v}) };
-        let rk = crate::coord::run_batches(vec![mk(UniCfg::k())], 1);
-        let re = crate::coord::run_batches(vec![mk(UniCfg::e())], 1);
-        let (res, _, _) = c04::compare(0, rk, re, Some(&case));
-        let want = v["expect"]["signature"].as_str().unwrap_or("").to_string();
-        let mut same = false;
-        for x in &res.stats.violations {
-            let sig = x["expect"]["signature"].as_str().unwrap_or("");
-            println!("REPLAY violation: {sig}: {}", x["expect"]["detail"].as_str().unwrap_or(""));
-            same |= sig == want;
-        }
-        if same {
-            println!("REPLAY reproduced: {want}");
-        }
-        return if res.stats.violations.is_empty() { 0 } else { 1 };
-    }
-    let b = Batch {
-        check: case.check.clone(),
-        phase: "replay".into(),
-        uni: case.uni.clone(),
-        seed: 0,
-        lo: 0,
-        hi: 1,
-        fresh: case.fresh,
-        tier: "quick".into(),
-        extra: serde_json::json!({"case": v}),
-    };
-    let res = crate::coord::run_batches(vec![b], 1);
     let want = v["expect"]["signature"].as_str().unwrap_or("").to_string();
-    let mut same = false;
-    for x in &res.stats.violations {
-        let sig = x["expect"]["signature"].as_str().unwrap_or("");
-        println!("REPLAY violation: {sig}: {}", x["expect"]["detail"].as_str().unwrap_or(""));
-        if sig == want {
-            same = true;
-        }
-    }
-    for d in &res.died {
-        println!("REPLAY universe died: {d}");
-        if want.contains("universe-died") {
-            same = true;
-        }
-    }
-    for e in &res.stats.harness_errors {
+    let (sigs, herr) = replay_value(&v);
+    for e in &herr {
         eprintln!("HARNESS-ERROR: {e}");
+    }
+    let mut same = false;
+    for (sig, detail) in &sigs {
+        println!("REPLAY violation: {sig}: {detail}");
+        same |= *sig == want;
     }
     if same {
         println!("REPLAY reproduced: {want}");
         1
-    } else if res.stats.violations.is_empty() && res.died.is_empty() {
+    } else if sigs.is_empty() {
         println!("REPLAY clean (expected {want})");
-        0
+        if herr.is_empty() {
+            0
+        } else {
+            2
+        }
     } else {
         println!("REPLAY different violation (expected {want})");
         1
     }
+}
+
+/// Delta-debugging over the replay file: attacker operations, faults,
+/// context switches, operations, world entries - as long as the same
+/// violation signature persists. At most `budget` replays.
+pub fn minimise(v: &serde_json::Value, budget: usize) -> (serde_json::Value, usize) {
+    let want = v["expect"]["signature"].as_str().unwrap_or("").to_string();
+    let mut cur = v.clone();
+    let mut used = 0usize;
+    let still = |cand: &serde_json::Value, used: &mut usize| -> Option<String> {
+        *used += 1;
+        let (sigs, _) = replay_value(cand);
+        sigs.into_iter().find(|(s, _)| *s == want).map(|(_, d)| d)
+    };
+    // the unreduced case must reproduce at all
+    match still(&cur, &mut used) {
+        Some(_) => {}
+        None => return (cur, used),
+    }
+    // 1. decisions (attacker ops, faults, switches)
+    loop {
+        let n = cur["plan"]["decisions"].as_array().map(|a| a.len()).unwrap_or(0);
+        let mut progress = false;
+        let mut i = 0;
+        while i < cur["plan"]["decisions"].as_array().map(|a| a.len()).unwrap_or(0) && used < budget {
+            let mut cand = cur.clone();
+            cand["plan"]["decisions"].as_array_mut().unwrap().remove(i);
+            if let Some(d) = still(&cand, &mut used) {
+                cand["expect"]["detail"] = serde_json::json!(d);
+                cur = cand;
+                progress = true;
+            } else {
+                // try dropping single attacker ops inside the decision
+                let na = cur["plan"]["decisions"][i]["attacker"].as_array().map(|a| a.len()).unwrap_or(0);
+                if na > 1 {
+                    let mut j = 0;
+                    while j < cur["plan"]["decisions"][i]["attacker"].as_array().map(|a| a.len()).unwrap_or(0) && used < budget {
+                        let mut cand = cur.clone();
+                        cand["plan"]["decisions"][i]["attacker"].as_array_mut().unwrap().remove(j);
+                        if let Some(d) = still(&cand, &mut used) {
+                            cand["expect"]["detail"] = serde_json::json!(d);
+                            cur = cand;
+                        } else {
+                            j += 1;
+                        }
+                    }
+                }
+                i += 1;
+            }
+        }
+        if !progress || n == 0 || used >= budget {
+            break;
+        }
+    }
+    // 2. operations (never the last one of a thread; never harness set-up the target depends on is tried too)
+    let nthreads = cur["ops"].as_array().map(|a| a.len()).unwrap_or(0);
+    for t in 0..nthreads {
+        let mut i = 0;
+        while used < budget {
+            let len = cur["ops"][t].as_array().map(|a| a.len()).unwrap_or(0);
+            if len < 2 || i + 1 >= len {
+                break;
+            }
+            let mut cand = cur.clone();
+            cand["ops"][t].as_array_mut().unwrap().remove(i);
+            if let Some(d) = still(&cand, &mut used) {
+                cand["expect"]["detail"] = serde_json::json!(d);
+                cur = cand;
+            } else {
+                i += 1;
+            }
+        }
+    }
+    // extra threads
+    while cur["ops"].as_array().map(|a| a.len()).unwrap_or(0) > 1 && used < budget {
+        let mut cand = cur.clone();
+        cand["ops"].as_array_mut().unwrap().pop();
+        if let Some(d) = still(&cand, &mut used) {
+            cand["expect"]["detail"] = serde_json::json!(d);
+            cur = cand;
+        } else {
+            break;
+        }
+    }
+    // 3. world entries (chunks first)
+    if cur["world"].is_array() {
+        let mut chunk = (cur["world"].as_array().unwrap().len() / 2).max(1);
+        while chunk >= 1 && used < budget {
+            let mut i = 0;
+            while used < budget {
+                let len = cur["world"].as_array().unwrap().len();
+                if i >= len {
+                    break;
+                }
+                let mut cand = cur.clone();
+                {
+                    let a = cand["world"].as_array_mut().unwrap();
+                    let hi = (i + chunk).min(a.len());
+                    // keep the root itself
+                    let keep_root = a[i..hi].iter().any(|e| e[0].as_str() == Some("root"));
+                    if keep_root {
+                        i += 1;
+                        continue;
+                    }
+                    a.drain(i..hi);
+                }
+                if let Some(d) = still(&cand, &mut used) {
+                    cand["expect"]["detail"] = serde_json::json!(d);
+                    cur = cand;
+                } else {
+                    i += chunk;
+                }
+            }
+            if chunk == 1 {
+                break;
+            }
+            chunk /= 2;
+        }
+    }
+    cur["minimised"] = serde_json::json!({"replays_used": used, "from": {"decisions": v["plan"]["decisions"].as_array().map(|a| a.len()), "ops": v["ops"].as_array().map(|a| a.iter().map(|t| t.as_array().map(|x| x.len()).unwrap_or(0)).sum::<usize>()), "world_entries": v["world"].as_array().map(|a| a.len())}});
+    cur["trace"] = serde_json::Value::Null;
+    (cur, used)
 }
